@@ -22,6 +22,7 @@ import sys
 import tempfile
 
 from framework import hx, sx
+import c16_listing
 
 # ---------------------------------------------------------------------------------------
 # audit hook: which paths does the implementation open / list
@@ -78,6 +79,11 @@ TREE_FILES = [
     'root/a.txt', 'root/.hidden', 'root/sub/index.html', 'root/sub/c.txt', 'root/d2/x y.txt',
     'root/d2/deep/z.txt', 'root/pA.txt', 'root/p%41.txt', 'root/é.txt', 'root/odd/index.html/k.txt',
     'root/sub-evil/s.txt', 'root/subx', 'root/secret.txt', 'root/e.txt', 'root/root/a.txt',
+    # sub-directories named like the mount prefixes ('/static', '/m/'): the same file names as at the top level with
+    # other contents, and one file that exists only there (the mount string occurring again inside the request path)
+    'root/static/a.txt', 'root/static/e.txt', 'root/static/secret.txt', 'root/static/only-here.txt', 'root/static/f',
+    'root/static/static/a.txt', 'root/static/y', 'root/m/a.txt', 'root/m/e.txt', 'root/m/secret.txt', 'root/m/only-here.txt',
+    'root/m/f', 'root/m/m/a.txt', 'root/m/y', 'root/f', 'root/x/static/y', 'root/x/m/y', 'root/x/y', 'root/y',
 ]
 TREE_DIRS = ['root/emp']
 
@@ -429,6 +435,13 @@ def observe_path(world, cfg_i, obs):
 HOSTILE = ('..', '%', '\\', '//', '/./', '\x00')
 
 
+def _prefix_repeated(pfx, path):
+    """the mount string occurs again behind the leading occurrence"""
+    if not pfx or not path.startswith(pfx):
+        return False
+    return pfx.strip('/') in path[len(pfx):]
+
+
 def eval_paths(ctx, world, cases):
     """cases: dict(kind='path', mode='direct'|'http', cfg=i, path=str)"""
     by_cfg = {}
@@ -481,7 +494,7 @@ def eval_paths(ctx, world, cases):
                     ctx.violate(c, escape_signature(world, world.static(cfg_i).docroot, outcome[1]),
                                 'request path %r is answered from %s, outside the document root %s' % (c['path'], outcome[1], docroot))
                 elif ans['spec'] == 'fail denotes':
-                    ctx.violate(c, 'wrong-file', 'request path %r is answered from %s, which is not the node it denotes' % (c['path'], outcome[1]))
+                    ctx.violate(c, 'wrong-file(prefix-repeated)' if _prefix_repeated(pfx, c['path']) else 'wrong-file', 'request path %r is answered from %s, which is not the node it denotes' % (c['path'], outcome[1]))
                 else:
                     ctx.disagree(c, {'where': 'staticpath.spec', 'impl': outcome, 'model': ans['spec']})
             # correspondence
@@ -516,6 +529,8 @@ def eval_paths(ctx, world, cases):
             ctx.count('path_segments', min(c['path'].count('/'), 9))
             hostile = any(h in c['path'] for h in HOSTILE)
             ctx.count('path_hostile', hostile)
+            if pfx:
+                ctx.count('path_mount_string_again(%s)' % mode, _prefix_repeated(pfx, c['path']))
             ctx.case(c, nontrivial=hostile or (outcome is not None and outcome[0] in ('file', 'listing')), validated=ok)
 
 
@@ -569,6 +584,21 @@ def path_cases(ctx, world):
             for seg in ('p%2541.txt', 'p%41.txt', 'pA.txt', 'p%252541.txt', '%70A.txt', '%2570A.txt', 'd2/x%2520y.txt',
                         'd2/x%20y.txt', 'sub/%2e%2e/a.txt', 'sub/%252e%252e/a.txt', 'sub%2f..%2fa.txt', 'sub%252f..%252fa.txt'):
                 cases.append(mk(cfg, mode, seg.split('/')))
+    # the mount string occurring again behind the leading one: only the leading occurrence is the mount point
+    for cfg in (1, 3):
+        pfx = world.cfgs[cfg][1]
+        name = pfx.strip('/')
+        for mode in ('direct', 'http'):
+            for segs in ([name, 'a.txt'], [name, 'e.txt'], [name, 'secret.txt'], [name, 'only-here.txt'], ['only-here.txt'],
+                         [name, name, 'a.txt'], [name, name, name, 'a.txt'], ['x', name, 'y'], ['x', 'y'], [name, 'y'], ['y'],
+                         [name], [name, ''], [name, name], ['sub', name, 'c.txt'], [name, 'f'], ['f'],
+                         [name, '..', name, 'a.txt'], ['%2e', name, 'a.txt'], [name + '%2fa.txt']):
+                cases.append(mk(cfg, mode, segs))
+            # glued: '/staticstatic/f', '/static/xstatic/y' (the second occurrence is part of a name)
+            cases.append(mk(cfg, mode, ['f'], lead=pfx.rstrip('/') + pfx.rstrip('/').lstrip('/')))
+            cases.append(mk(cfg, mode, ['a.txt'], lead=pfx.rstrip('/') + pfx.rstrip('/')))
+            cases.append(mk(cfg, mode, ['x' + name, 'y']))
+            cases.append(mk(cfg, mode, ['x' + pfx.rstrip('/'), 'y']))
     # absolute paths smuggled in through %2f, and the docroot's own name as text
     b = world.base
     enc = b.replace('/', '%2f')
@@ -587,6 +617,11 @@ def path_cases(ctx, world):
         if mode == 'http':
             # a request line is ASCII (RFC 7230); what the front end does with raw 8-bit bytes is C14's subject
             segs = [x for x in segs if x.isascii()]
+        pfx = world.cfgs[cfg][1]
+        if pfx and rng.random() < 0.25:
+            # the mount string again, somewhere behind the leading one
+            for _ in range(rng.randint(1, 2)):
+                segs.insert(rng.randrange(len(segs) + 1), pfx.strip('/'))
         lead = None
         r = rng.random()
         if r < 0.1:
@@ -1308,7 +1343,8 @@ def params(ctx):
 # entry points
 # ---------------------------------------------------------------------------------------
 
-EVAL = {'path': eval_paths, 'range': eval_ranges, 'leaf': eval_leaves, 'cond': eval_cond}
+EVAL = {'path': eval_paths, 'range': eval_ranges, 'leaf': eval_leaves, 'cond': eval_cond,
+        'listing': c16_listing.eval_listings, 'qleaf': c16_listing.eval_qleaves}
 
 
 def _describe(ctx):
@@ -1324,8 +1360,14 @@ def _describe(ctx):
                 'with the model body for the real boundary, its headers by content, and read by the Lean RFC reader; '
                 'conditional: all combinations of 8 If-Unmodified-Since x 8 If-Modified-Since values x 7 Range headers '
                 '(GET), random ones with HEAD/POST/PUT, If-Range, HTTP/1.0, behind the front end; '
-                'non-trivial = hostile segment or something served / a Range header present; distinct = distinct case'
-                % (CORE9, len(WIDE), SIZES, MP_SIZES))
+                'non-trivial = hostile segment or something served / a Range header present; distinct = distinct case; '
+                'mount string again: directed family + 25 %% of the random paths under a mount carry the mount name again '
+                'behind the leading prefix (nested, glued, inside a name), the docroot has same-named files below <docroot>/<mount name>/; '
+                'listings (c16_listing.py): every directory of a docroot with %d hostile names x %d mount configurations x ~10 '
+                'request spellings (canonical, trailing slash, doubled slashes, sub-delims unencoded, /./, x/../, zz/.., %%2F, '
+                'random percent-encoding, absolute docroot spelling) + random directories of 1-6 names over a %d-character hostile '
+                'alphabet; every href of every page is followed through the real dispatcher'
+                % (CORE9, len(WIDE), SIZES, MP_SIZES, len(c16_listing.LTREE), len(c16_listing.LCFGS), len(c16_listing.NAME_ALPHA)))
     ctx.trusted += ['Lean re-implementations of urllib.parse.unquote / posixpath.normpath / join / str.strip equal the '
                     'stdlib functions (validated by this run on generated strings, not proved)',
                     'no symbolic links inside the document root (the dispatcher resolves none)',
@@ -1334,9 +1376,19 @@ def _describe(ctx):
                     'the multipart boundary ("--" + boundary) does not occur in a requested payload: hypothesis of '
                     'C16.multipart_roundtrip; the code draws 19 random digits and does not look at the file '
                     '(histogram multipart_boundary_in_file counts the runs where it did occur)',
-                    'HTTP chunked framing of the generator body is undone by the harness (C15 covers it)']
+                    'HTTP chunked framing of the generator body is undone by the harness (C15 covers it)',
+                    'Lean re-implementations of urllib.parse.quote (safe="/") and html.escape equal the stdlib functions, and '
+                    'unquote(quote(s)) == s (hypothesis 3 of C16.listing_link_leads_to_entry_partial) - validated on generated '
+                    'strings by this run, not proved',
+                    'os.listdir reports every child of the directory once (hypothesis LsOk of C16.listing_exact); its order is '
+                    'taken from a second os.listdir call on the unchanged directory',
+                    'html.parser undoes html.escape on attribute values and text (the raw <li> lines are also compared as text)']
     ctx.assumptions += ['Range header values are drawn from ASCII plus a few non-ASCII digits / spaces',
-                        'directory listings are compared as sets of entry names',
+                        'directory listings are compared as sets of entry names (path cases) and entry by entry, in order, in the listing cases',
+                        'listing cases: file names are valid Unicode without "/" and newline (a name that is not valid UTF-8 makes '
+                        'quote() raise - outside the model: Lean Char has no lone surrogates); listings are driven by direct dispatch '
+                        'only; mount prefixes consist of characters quote() leaves alone',
+                        'a client follows an href by requesting its path component (fragment and query cut off, no other rewriting)',
                         'HTTP/1.0 requests get the whole file (the code does not look at Range there)',
                         'the media type of a part is the one mimetypes gives for the extension (input of the model)',
                         'validators are compared as strings with the formatted Last-Modified (as the code does); '
@@ -1350,7 +1402,12 @@ def run(ctx):
         params(ctx)
         for case in ctx.corpus():
             EVAL[case['kind']](ctx, world, [case])
-        groups = [('leaf', leaf_cases(ctx)), ('range', range_cases(ctx) + mp_cases(ctx)), ('cond', cond_cases(ctx)),
+        lworld = c16_listing.ListWorld()
+        try:
+            lcases = c16_listing.listing_cases(ctx, lworld)
+        finally:
+            lworld.close()
+        groups = [('qleaf', c16_listing.qleaf_cases(ctx)), ('listing', lcases), ('leaf', leaf_cases(ctx)), ('range', range_cases(ctx) + mp_cases(ctx)), ('cond', cond_cases(ctx)),
                   ('path', path_cases(ctx, world))]
         for kind, cases in groups:
             for i in range(0, len(cases), 4000):
